@@ -168,6 +168,12 @@ func parse(b []byte, strict *[]string) (*Parsed, *Reject) {
 	case bytes.HasPrefix(b, magicB2):
 		p.Version = "b2"
 	default:
+		// the magic string and a known version string under the OTHER version's top-level
+		// array head: a file of neither version (b1 has six top-level items, b2 five)
+		if len(b) >= len(magicB1) && bytes.Equal(b[1:11], magicB1[1:11]) &&
+			((b[0] == magicB1[0] && bytes.Equal(b[11:15], magicB2[11:15])) || (b[0] == magicB2[0] && bytes.Equal(b[11:15], magicB1[11:15]))) {
+			return nil, listed("top-level array head 0x%02x does not belong to version %q", b[0], b[12:13])
+		}
 		return nil, other("bad magic / version")
 	}
 	c := &cursor{b: b, pos: len(magicB1), end: len(b), fields: &p.Fields, strict: strict}
